@@ -9,6 +9,7 @@ import Driver.Ops.Valid
 import Driver.Ops.Classify
 import Driver.Ops.Helpers
 import Driver.Ops.Geometric
+import Driver.Ops.Walk
 
 /-!
 # Driver/Main — the model behind a one-line-in, one-line-out protocol (K := Rat)
@@ -22,7 +23,7 @@ open Driver
 /-- the op modules, tried in order -/
 def handlers : List (String → List V → Option String) :=
   [Driver.Ops.Curve.handle, Driver.Ops.Area.handle, Driver.Ops.Locate.handle,
-   Driver.Ops.Protocol.handle, Driver.Ops.Algebraic.handle, Driver.Ops.Triangle.handle, Driver.Ops.Valid.handle, Driver.Ops.Classify.handle, Driver.Ops.Helpers.handle, Driver.Ops.Geometric.handle]
+   Driver.Ops.Protocol.handle, Driver.Ops.Algebraic.handle, Driver.Ops.Triangle.handle, Driver.Ops.Valid.handle, Driver.Ops.Classify.handle, Driver.Ops.Helpers.handle, Driver.Ops.Geometric.handle, Driver.Ops.Walk.handle]
 
 def handle (op : String) (args : List V) : Option String :=
   handlers.firstM (fun h => h op args)
